@@ -53,6 +53,28 @@ CUR = None  # the active PathState (symbolic) or ConcreteState
 DELTA_MODE = False  # when True every real +,-,*,/ and sqrt result is exact*(1+delta), |delta| <= 2^-53
 
 
+def modelled(exc):
+    """Tag an exception that the encoding raises on purpose (it models what CPython would raise)."""
+    exc._symx_modelled = True
+    return exc
+
+
+_VF_DIR = os.path.dirname(os.path.abspath(__file__))
+
+
+def _raised_inside_checker(exc):
+    """True when the innermost frame of the traceback is checker code (vf/) and the exception is not a modelled one:
+    a bug of the encoding must never be taken for an outcome of the code under test."""
+    if getattr(exc, "_symx_modelled", False):
+        return False
+    tb = exc.__traceback__
+    last = None
+    while tb is not None:
+        last = tb
+        tb = tb.tb_next
+    return last is not None and os.path.abspath(last.tb_frame.f_code.co_filename).startswith(_VF_DIR)
+
+
 def cur():
     if CUR is None:
         raise ProxyLeak("symbolic value used outside an exploration")
@@ -161,7 +183,7 @@ class _ArithMixin:
         tn, td = to_real(tn), to_real(td)
         zero = SymBool(z3.simplify(td == 0))
         if zero:  # forks: the ZeroDivisionError outcome is a path of its own
-            raise ZeroDivisionError("float division by zero")
+            raise modelled(ZeroDivisionError("float division by zero"))
         td_s = z3.simplify(td)
         if z3.is_rational_value(td_s) or z3.is_int_value(td_s):
             r = tn / td_s
@@ -291,7 +313,7 @@ class SymInt(_ArithMixin, int):
         a, b = _arith_pair(self, o)
         if z3.is_int(a) and z3.is_int(b):
             if SymBool(z3.simplify(b == 0)):
-                raise ZeroDivisionError("integer division or modulo by zero")
+                raise modelled(ZeroDivisionError("integer division or modulo by zero"))
             # Python floors; z3 div is euclidean: they agree for b > 0
             if not SymBool(z3.simplify(b > 0)):
                 raise ProxyLeak("floor division by a possibly negative symbolic integer")
@@ -302,7 +324,7 @@ class SymInt(_ArithMixin, int):
         a, b = _arith_pair(self, o)
         if z3.is_int(a) and z3.is_int(b):
             if SymBool(z3.simplify(b == 0)):
-                raise ZeroDivisionError("integer division or modulo by zero")
+                raise modelled(ZeroDivisionError("integer division or modulo by zero"))
             if not SymBool(z3.simplify(b > 0)):
                 raise ProxyLeak("modulo by a possibly negative symbolic integer")
             return SymInt(z3.simplify(a % b))
@@ -721,7 +743,7 @@ class PathState:
         if bool(SymBool(z3.simplify(tx < 0))):
             if complex_on_negative:
                 raise ProxyLeak("x ** 0.5 with x < 0 feasible (complex result)")
-            raise ValueError("math domain error")
+            raise modelled(ValueError("math domain error"))
         self._add(z3.And(s >= 0, s * s == tx))
         if DELTA_MODE:
             return SymReal(z3.simplify(self.delta(s)))
@@ -742,7 +764,7 @@ class PathState:
         """acos as an uninterpreted function with its range axiom; raises ValueError outside [-1, 1] (domain obligation)."""
         tx = z3.simplify(to_real(term(x)))
         if bool(SymBool(z3.simplify(z3.Or(tx < -1, tx > 1)))):
-            raise ValueError("math domain error")
+            raise modelled(ValueError("math domain error"))
         f = z3.Function("acos", z3.RealSort(), z3.RealSort())
         a = f(tx)
         self._add(z3.And(a >= 0, a <= real_val(self.PI_UB)))
@@ -850,6 +872,8 @@ class PathState:
         except (Abort, ProxyLeak):
             raise
         except Exception as e:  # noqa: the code under test may raise anything; it is an outcome
+            if _raised_inside_checker(e):
+                raise ProxyLeak(f"exception raised by the encoding itself: {type(e).__name__}: {e}\n" + traceback.format_exc(limit=8))
             e._symx_tb = traceback.format_exc(limit=6)
             return Outcome(exc=e)
 
